@@ -127,17 +127,24 @@ def limitFanout (c : Circuit) (k : Nat) (ord : Ord) : E Circuit :=
 
 def inter (a b : List Name) : List Name := a.filter b.contains
 
+/-- add and keep only the circuit -/
+def addC (c : Circuit) (a : Circuit.AddArgs) : E Circuit := (addE c a).map (·.1)
+
+def miterTie (m : Circuit) (sp : List Name) : E Circuit :=
+  sp.foldlM (fun m n => addC m { n := n, ty := "input", fanout := ["c0_" ++ n, "c1_" ++ n] }) m
+
+def miterCompare (m : Circuit) (ep : List Name) : E Circuit :=
+  ep.foldlM (fun m n => addC m { n := "dif_" ++ n, ty := "xor", fanin := ["c0_" ++ n, "c1_" ++ n], fanout := ["sat"] }) m
+
 /-- `tx.miter(c0, c1, startpoints, endpoints)`; `none`/empty arguments are falsy as in Python -/
-def miter (c0 : Circuit) (c1? : Option Circuit) (sp? ep? : Option (List Name)) (ord : Ord) : E Circuit := do
-  if !c0.bbs.isEmpty then throw .valueError
+def miter (c0 : Circuit) (c1? : Option Circuit) (sp? ep? : Option (List Name)) (ord : Ord) : E Circuit :=
+  if !c0.bbs.isEmpty then .error .valueError else
   -- `c1 and c1.blackboxes`: an empty circuit is falsy
-  match c1? with
-  | some c1 => if !c1.nodes.isEmpty && !c1.bbs.isEmpty then throw .valueError
-  | none => pure ()
+  if (match c1? with | some c1 => !c1.nodes.isEmpty && !c1.bbs.isEmpty | none => false) then .error .valueError else
   let c1 := match c1? with
     | some c1 => if c1.nodes.isEmpty then c0 else c1
     | none => c0
-  if c0.nodes.any (fun p => p.2.ty.isNone) || c1.nodes.any (fun p => p.2.ty.isNone) then throw .keyError
+  if c0.nodes.any (fun p => p.2.ty.isNone) || c1.nodes.any (fun p => p.2.ty.isNone) then .error .keyError else
   let sp := match sp? with
     | some l => if l.isEmpty then ord (inter c0.startpointsAll c1.startpointsAll) else l
     | none => ord (inter c0.startpointsAll c1.startpointsAll)
@@ -145,101 +152,93 @@ def miter (c0 : Circuit) (c1? : Option Circuit) (sp? ep? : Option (List Name)) (
     | some l => if l.isEmpty then ord (inter c0.endpointsAll c1.endpointsAll) else l
     | none => ord (inter c0.endpointsAll c1.endpointsAll)
   let m0 : Circuit := { name := "miter_" ++ c0.name ++ "_" ++ c1.name }
-  let m1 ← liftO (m0.addSubcircuit c0 "c0" [])
-  let mut m ← liftO (m1.addSubcircuit c1 "c1" [])
-  for n in sp do
-    let (m', _) ← addE m { n := n, ty := "input", fanout := ["c0_" ++ n, "c1_" ++ n] }
-    m := m'
-  let (m', _) ← addE m { n := "sat", ty := if ep.isEmpty then "0" else if ep.length > 1 then "or" else "buf",
-                         output := true }
-  m := m'
-  for n in ep do
-    let (m', _) ← addE m { n := "dif_" ++ n, ty := "xor", fanin := ["c0_" ++ n, "c1_" ++ n], fanout := ["sat"] }
-    m := m'
-  pure m
+  liftO (m0.addSubcircuit c0 "c0" []) >>= fun m1 =>
+  liftO (m1.addSubcircuit c1 "c1" []) >>= fun m2 =>
+  miterTie m2 sp >>= fun m3 =>
+  addC m3 { n := "sat", ty := if ep.isEmpty then "0" else if ep.length > 1 then "or" else "buf", output := true } >>= fun m4 =>
+  miterCompare m4 ep
+
+/-- the companion-name table of `ternary`: `{n: c.uid(f"{n}_X") for n in c}` -/
+def ternaryMapping (c : Circuit) : E (List (Name × Name)) :=
+  c.nodeNames.mapM (fun n => (uidE c (n ++ "_X")).map (fun x => (n, x)))
+
+/-- the helper gates of one and/nand (or/nor) operand -/
+def ternaryIs0 (mp : Name → Name) (z : Name) (t : Circuit) (p : Name) : E Circuit :=
+  addC t { n := p ++ "_is_0", ty := "nor", fanout := [z], fanin := [p, mp p], uid := true }
+
+def ternaryIs1 (mp : Name → Name) (o : Name) (t : Circuit) (p : Name) : E Circuit :=
+  addE t { n := p ++ "_is_1", ty := "and", fanout := [o], fanin := [p], uid := true } >>= fun r =>
+  addC r.1 { n := p ++ "_not_x", ty := "not", fanout := [r.2], fanin := [mp p], uid := true }
+
+/-- the body of `ternary`'s main loop for node `n` -/
+def ternaryNode (c : Circuit) (ord : Ord) (mp : Name → Name) (t : Circuit) (n : Name) : E Circuit :=
+  match c.ty? n with
+  | none => .error .keyError
+  | some ty =>
+    let fi := ord (c.fanin n)
+    let isOut := c.isOut n
+    if (T.ternaryL 0).contains ty then
+      addC t { n := mp n, ty := "and", output := isOut, allowRedef := true } >>= fun t1 =>
+      addC t1 { n := n ++ "_x_in_fi", ty := "or", fanout := [mp n], fanin := fi.map mp, uid := true, addConnected := true } >>= fun t2 =>
+      addE t2 { n := n ++ "_0_not_in_fi", ty := "nor", fanout := [mp n], uid := true } >>= fun r =>
+      fi.foldlM (ternaryIs0 mp r.2) r.1
+    else if (T.ternaryL 1).contains ty then
+      addC t { n := mp n, ty := "and", output := isOut, allowRedef := true } >>= fun t1 =>
+      addC t1 { n := n ++ "_x_in_fi", ty := "or", fanout := [mp n], fanin := fi.map mp, uid := true, addConnected := true } >>= fun t2 =>
+      addE t2 { n := n ++ "_1_not_in_fi", ty := "nor", fanout := [mp n], uid := true } >>= fun r =>
+      fi.foldlM (ternaryIs1 mp r.2) r.1
+    else if (T.ternaryL 2).contains ty then
+      match fi with
+      | [] => .error .keyError
+      | p :: _ => addC t { n := mp n, ty := "buf", fanin := [mp p], output := isOut, addConnected := true, allowRedef := true }
+    else if (T.ternaryL 3).contains ty then
+      addC t { n := mp n, ty := "or", fanin := fi.map mp, output := isOut, addConnected := true, allowRedef := true }
+    else if (T.ternaryL 4).contains ty then
+      addC t { n := mp n, ty := "0", output := isOut, allowRedef := true }
+    else if (T.ternaryL 5).contains ty then
+      addC t { n := mp n, ty := "input", allowRedef := true }
+    else .error .valueError
 
 /-- `tx.ternary(c)`: returns the encoded circuit and the mapping (in graph order) -/
-def ternary (c : Circuit) (ord : Ord) : E (Circuit × List (Name × Name)) := do
-  if !c.bbs.isEmpty then throw .valueError
-  let mut mapping : List (Name × Name) := []
-  for n in c.nodeNames do
-    mapping := mapping ++ [(n, ← uidE c (n ++ "_X"))]
+def ternary (c : Circuit) (ord : Ord) : E (Circuit × List (Name × Name)) :=
+  if !c.bbs.isEmpty then .error .valueError else
+  ternaryMapping c >>= fun mapping =>
   let mp := fun n => (mapping.lookup n).getD ""
-  let mut t := c
-  for n in c.nodeNames do
-    match c.ty? n with
-    | none => throw .keyError
-    | some ty =>
-      let fi := ord (c.fanin n)
-      let isOut := c.isOut n
-      if (T.ternaryL 0).contains ty then
-        let (t1, _) ← addE t { n := mp n, ty := "and", output := isOut, allowRedef := true }
-        let (t2, _) ← addE t1 { n := n ++ "_x_in_fi", ty := "or", fanout := [mp n], fanin := fi.map mp,
-                                 uid := true, addConnected := true }
-        let (t3, z) ← addE t2 { n := n ++ "_0_not_in_fi", ty := "nor", fanout := [mp n], uid := true }
-        t := t3
-        for p in fi do
-          let (t', _) ← addE t { n := p ++ "_is_0", ty := "nor", fanout := [z], fanin := [p, mp p], uid := true }
-          t := t'
-      else if (T.ternaryL 1).contains ty then
-        let (t1, _) ← addE t { n := mp n, ty := "and", output := isOut, allowRedef := true }
-        let (t2, _) ← addE t1 { n := n ++ "_x_in_fi", ty := "or", fanout := [mp n], fanin := fi.map mp,
-                                 uid := true, addConnected := true }
-        let (t3, o) ← addE t2 { n := n ++ "_1_not_in_fi", ty := "nor", fanout := [mp n], uid := true }
-        t := t3
-        for p in fi do
-          let (t', is1) ← addE t { n := p ++ "_is_1", ty := "and", fanout := [o], fanin := [p], uid := true }
-          let (t'', _) ← addE t' { n := p ++ "_not_x", ty := "not", fanout := [is1], fanin := [mp p], uid := true }
-          t := t''
-      else if (T.ternaryL 2).contains ty then
-        match fi with
-        | [] => throw .keyError
-        | p :: _ =>
-          let (t1, _) ← addE t { n := mp n, ty := "buf", fanin := [mp p], output := isOut, addConnected := true,
-                                  allowRedef := true }
-          t := t1
-      else if (T.ternaryL 3).contains ty then
-        let (t1, _) ← addE t { n := mp n, ty := "or", fanin := fi.map mp, output := isOut, addConnected := true,
-                                allowRedef := true }
-        t := t1
-      else if (T.ternaryL 4).contains ty then
-        let (t1, _) ← addE t { n := mp n, ty := "0", output := isOut, allowRedef := true }
-        t := t1
-      else if (T.ternaryL 5).contains ty then
-        let (t1, _) ← addE t { n := mp n, ty := "input", allowRedef := true }
-        t := t1
-      else throw .valueError
-  pure (t, mapping)
+  c.nodeNames.foldlM (ternaryNode c ord mp) c >>= fun t => pure (t, mapping)
+
+/-- state of `unroll`'s loop: the unrolled circuit and the io map -/
+abbrev UState := Circuit × List (Name × List Name)
+
+def ioName (ioMap : List (Name × List Name)) (x : Name) (t : Nat) : Name := ((ioMap.lookup x).getD []).getD t ""
+
+/-- creation of the per-step io node for `x` -/
+def unrollIO (c : Circuit) (stateIO : List (Name × Name)) (pfx : String) (itr : Nat) (s : UState) (x : Name) : E UState :=
+  uidE c (x ++ "_" ++ pfx ++ "_" ++ toString itr) >>= fun newIO =>
+  let t := if stateIO.any (fun p => p.1 == x || p.2 == x) then "buf"
+           else if c.inputs.contains x then "input" else "buf"
+  addC s.1 { n := newIO, ty := t, output := c.isOut x } >>= fun uc =>
+  pure (uc, s.2.map (fun p => if p.1 == x then (p.1, p.2 ++ [newIO]) else p))
+
+/-- one iteration of `unroll`'s outer loop -/
+def unrollStep (c : Circuit) (io : List Name) (stateIO : List (Name × Name)) (pfx : String) (s : UState) (itr : Nat) :
+    E UState :=
+  io.foldlM (unrollIO c stateIO pfx itr) s >>= fun s1 =>
+  let nm := ioName s1.2
+  liftO (s1.1.addSubcircuit c ("unrolled_" ++ toString itr) (io.map (fun x => (x, [nm x itr])))) >>= fun uc =>
+  (if itr == 0 then
+    stateIO.foldlM (fun uc p => liftO (uc.setType [nm p.2 0] "input")) uc
+  else
+    stateIO.foldlM (fun uc p => liftO (uc.connect [nm p.1 (itr - 1)] [nm p.2 itr])) uc) >>= fun uc' =>
+  pure (uc', s1.2)
 
 /-- `tx.unroll(c, n, state_io, prefix)`: returns the unrolled circuit and the io map (io in `ord` order) -/
-def unroll (c : Circuit) (n : Nat) (stateIO : List (Name × Name)) (pfx : String) (ord : Ord) :
-    E (Circuit × List (Name × List Name)) := do
-  if !c.bbs.isEmpty then throw .valueError
-  if n < 1 then throw .valueError
-  if c.nodes.any (fun p => p.2.ty.isNone) then throw .keyError
+def unroll (c : Circuit) (n : Nat) (stateIO : List (Name × Name)) (pfx : String) (ord : Ord) : E UState :=
+  if !c.bbs.isEmpty then .error .valueError else
+  if n < 1 then .error .valueError else
+  if c.nodes.any (fun p => p.2.ty.isNone) then .error .keyError else
   let io := ord c.io
-  for p in stateIO do
-    if !io.contains p.1 then throw .valueError
-    if !io.contains p.2 then throw .valueError
-  let mut uc : Circuit := {}
-  let mut ioMap : List (Name × List Name) := io.map (fun x => (x, []))
-  for itr in List.range n do
-    for x in io do
-      let newIO ← uidE c (x ++ "_" ++ pfx ++ "_" ++ toString itr)
-      let t := if stateIO.any (fun p => p.1 == x || p.2 == x) then "buf"
-               else if c.inputs.contains x then "input" else "buf"
-      let (uc', _) ← addE uc { n := newIO, ty := t, output := c.isOut x }
-      uc := uc'
-      ioMap := ioMap.map (fun p => if p.1 == x then (p.1, p.2 ++ [newIO]) else p)
-    let nm := fun (x : Name) (t : Nat) => ((ioMap.lookup x).getD []).getD t ""
-    uc ← liftO (uc.addSubcircuit c ("unrolled_" ++ toString itr) (io.map (fun x => (x, [nm x itr]))))
-    if itr == 0 then
-      for p in stateIO do
-        uc ← liftO (uc.setType [nm p.2 0] "input")
-    else
-      for p in stateIO do
-        uc ← liftO (uc.connect [nm p.1 (itr - 1)] [nm p.2 itr])
-  pure (uc, ioMap)
+  if stateIO.any (fun p => !io.contains p.1 || !io.contains p.2) then .error .valueError else
+  (List.range n).foldlM (unrollStep c io stateIO pfx) ({}, io.map (fun x => (x, [])))
 
 end Tx
 end CG
